@@ -270,7 +270,7 @@ def run_program(ctx, prog, mode_of_step, tag):
 def run(ctx):
     rng = ctx.rng
     modes = drv.QUICK_MODES if ctx.quick else drv.ALL_MODES
-    nprog = 120 if ctx.quick else 3000
+    nprog = 400 if ctx.quick else 5000
     ctx.rule = ("program = 10-60 steps over the whole op table (all write options incl. wrong declared size/integrity, "
                 "all retrieval entry points, lookups, listing, removals, clear, raw index ops, link_to) INCLUDING "
                 "harness steps that damage content files (flip/truncate/extend/delete/empty) and bucket files "
